@@ -191,7 +191,8 @@ func evalQuery(s side, q query, arg string) (o outcome) {
 // diff is one disagreement between the oracle and a file system.
 type diff struct {
 	Kind, Want, Got string
-	Path            string // the path the disagreement is about (file system namespace), "" if none
+	Path            string // the path the disagreement is about (file system namespace)
+	HasPath         bool
 }
 
 func splitV(s string) []string { return strings.Split(s, "|") }
@@ -245,11 +246,34 @@ func compareGlob(want, got outcome) []diff {
 		gm[p]++
 	}
 
+	// same paths, spelled differently (cleaned)?
+	if len(want.List) == len(got.List) {
+		same, verbatim := true, true
+
+		for i := range want.List {
+			if want.List[i] != got.List[i] {
+				verbatim = false
+			}
+
+			if filepath.Clean(want.List[i]) != filepath.Clean(got.List[i]) {
+				same = false
+			}
+		}
+
+		if same && !verbatim {
+			for i := range want.List {
+				if want.List[i] != got.List[i] {
+					return []diff{{Kind: "spelling", Want: "verbatim", Got: "cleaned", Path: want.List[i], HasPath: true}}
+				}
+			}
+		}
+	}
+
 	setDiff := false
 
 	for _, p := range want.List {
 		if gm[p] == 0 {
-			ds = append(ds, diff{Kind: "missing-match", Want: "match", Got: "absent", Path: p})
+			ds = append(ds, diff{Kind: "missing-match", Want: "match", Got: "absent", Path: p, HasPath: true})
 			setDiff = true
 
 			break
@@ -258,7 +282,7 @@ func compareGlob(want, got outcome) []diff {
 
 	for _, p := range got.List {
 		if wm[p] == 0 {
-			ds = append(ds, diff{Kind: "extra-match", Want: "absent", Got: "match", Path: p})
+			ds = append(ds, diff{Kind: "extra-match", Want: "absent", Got: "match", Path: p, HasPath: true})
 			setDiff = true
 
 			break
@@ -271,7 +295,7 @@ func compareGlob(want, got outcome) []diff {
 
 	for p, n := range gm {
 		if wm[p] != n {
-			return []diff{{Kind: "duplicate-match", Want: fmt.Sprint(wm[p]), Got: fmt.Sprint(n), Path: p}}
+			return []diff{{Kind: "duplicate-match", Want: fmt.Sprint(wm[p]), Got: fmt.Sprint(n), Path: p, HasPath: true}}
 		}
 	}
 
@@ -335,7 +359,15 @@ func compareReadDir(want, got outcome) []diff {
 
 	for i := range want.List {
 		w, g := splitV(want.List[i]), splitV(got.List[i])
-		for f := 1; f < len(fields) && f < len(w) && f < len(g); f++ {
+
+		// fs.DirEntry allows Info to be taken at read time or at call time: when
+		// the oracle's lazy lstat fails (unsearchable directory) nothing is implied
+		nf := len(fields)
+		if strings.HasPrefix(w[3], "info!") {
+			nf = 3
+		}
+
+		for f := 1; f < nf && f < len(w) && f < len(g); f++ {
 			if w[f] != g[f] {
 				key := fields[f] + w[f] + g[f] + w[1]
 				if !seen[key] {
@@ -368,20 +400,20 @@ func compareWalk(want, got outcome) []diff {
 
 		switch {
 		case w[0] != g[0]:
-			ds = append(ds, diff{Kind: "visit-seq", Want: "path:" + w[1], Got: "other-path:" + g[1], Path: w[0]})
+			ds = append(ds, diff{Kind: "visit-seq", Want: "path:" + w[1], Got: "other-path:" + g[1], Path: w[0], HasPath: true})
 		case w[1] != g[1]:
-			ds = append(ds, diff{Kind: "visit-seq", Want: "type:" + w[1], Got: "type:" + g[1], Path: w[0]})
+			ds = append(ds, diff{Kind: "visit-seq", Want: "type:" + w[1], Got: "type:" + g[1], Path: w[0], HasPath: true})
 		case w[2] != g[2]:
-			ds = append(ds, diff{Kind: "visit-seq", Want: "isdir:" + w[2], Got: "isdir:" + g[2], Path: w[0]})
+			ds = append(ds, diff{Kind: "visit-seq", Want: "isdir:" + w[2], Got: "isdir:" + g[2], Path: w[0], HasPath: true})
 		default:
-			ds = append(ds, diff{Kind: "visit-seq", Want: "err:" + w[3], Got: "err:" + g[3], Path: w[0]})
+			ds = append(ds, diff{Kind: "visit-seq", Want: "err:" + w[3], Got: "err:" + g[3], Path: w[0], HasPath: true})
 		}
 	case len(got.List) < len(want.List):
 		w := splitV(want.List[j])
-		ds = append(ds, diff{Kind: "visit-seq", Want: "next:" + w[1] + "/" + w[3], Got: "stops", Path: w[0]})
+		ds = append(ds, diff{Kind: "visit-seq", Want: "next:" + w[1] + "/" + w[3], Got: "stops", Path: w[0], HasPath: true})
 	case len(got.List) > len(want.List):
 		g := splitV(got.List[j])
-		ds = append(ds, diff{Kind: "visit-seq", Want: "stops", Got: "next:" + g[1] + "/" + g[3], Path: g[0]})
+		ds = append(ds, diff{Kind: "visit-seq", Want: "stops", Got: "next:" + g[1] + "/" + g[3], Path: g[0], HasPath: true})
 	}
 
 	if want.Kind != got.Kind {
@@ -577,6 +609,10 @@ func oraclePass(R string, u universe) []qres {
 func classK(R, p string) string {
 	if p == R {
 		return "root"
+	}
+
+	if p == "" {
+		return "empty-path"
 	}
 
 	fi, err := os.Lstat(p)
